@@ -17,14 +17,15 @@ Open Scope list_scope.
 
 Definition target := bytes.
 
-Inductive fmt := FDkvp | FNidx | FJsonl | FCsv | FJson.
+Inductive fmt := FDkvp | FNidx | FJsonl | FCsv | FJson | FTsv | FXtab.
 Inductive mode := MWrite | MAppend | MPipe.      (* ">" , ">>" , "|" *)
 
 Inductive item :=
 | IRaw (s : bytes)              (* print/dump text, or content that was in the file before the run *)
 | IHeader (ks : list bytes)     (* CSV header line *)
 | IRec (r : record) (pad : nat) (* one record; pad = number of empty fields the CSV writer fills in *)
-| IOpen | ISep | IClose.        (* JSON "[\n"   ",\n"   "\n]\n" *)
+| IOpen | ISep | IClose         (* JSON "[\n"   ",\n"   "\n]\n" *)
+| IBlank.                       (* XTAB: the empty line between two records *)
 
 (* stream state of a record writer: nothing written yet / started, with the first record's keys *)
 Inductive wstate := WFresh | WStarted (first_keys : list bytes).
@@ -48,7 +49,12 @@ Definition w_rec (F : fmt) (ws : wstate) (r : record) : option (list item * wsta
       | WFresh => Some ([IOpen; IRec r 0], WStarted (keys r))
       | WStarted _ => Some ([ISep; IRec r 0], ws)
       end
-  | FCsv =>
+  | FXtab =>                    (* record_writer_xtab.go: onFirst *)
+      match ws with
+      | WFresh => Some ([IRec r 0], WStarted (keys r))
+      | WStarted _ => Some ([IBlank; IRec r 0], ws)
+      end
+  | FCsv | FTsv =>              (* record_writer_csv.go / record_writer_tsv.go: same stream state *)
       match ws with
       | WFresh => Some ([IHeader (keys r); IRec r 0], WStarted (keys r))
       | WStarted fk =>
@@ -206,6 +212,7 @@ Fixpoint raws_of (its : list item) : list bytes :=
 Definition is_header (i : item) : bool := match i with IHeader _ => true | _ => false end.
 Definition is_open (i : item) : bool := match i with IOpen => true | _ => false end.
 Definition is_close (i : item) : bool := match i with IClose => true | _ => false end.
+Definition is_blank (i : item) : bool := match i with IBlank => true | _ => false end.
 Definition count (p : item -> bool) (l : list item) : nat := List.length (filter p l).
 
 (* the distinct targets of a history *)
@@ -226,6 +233,7 @@ Fixpoint join (sep : bytes) (l : list bytes) : bytes :=
   end.
 
 Definition nl : bytes := ["010"%char].
+Definition tab : bytes := ["009"%char].
 Definition q (s : bytes) : bytes := """"%char :: s ++ [""""%char].
 
 (* renderings for field values over a safe alphabet (no separators, quotes, backslashes, control bytes):
@@ -235,6 +243,10 @@ Definition render_rec (F : fmt) (r : record) (pad : nat) : bytes :=
   | FDkvp => join (B ",") (map (fun kv => fst kv ++ B "=" ++ snd kv) r) ++ nl
   | FNidx => join (B " ") (values r) ++ nl
   | FCsv => join (B ",") (values r ++ repeat [] pad) ++ nl
+  | FTsv => join tab (values r ++ repeat [] pad) ++ nl
+  | FXtab =>
+      let w := fold_left (fun m kv => Nat.max m (List.length (fst kv))) r 1 in
+      flat_map (fun kv => fst kv ++ B " " ++ repeat " "%char (w - List.length (fst kv)) ++ snd kv ++ nl) r
   | FJsonl =>
       match r with
       | [] => B "{}" ++ nl
@@ -250,7 +262,8 @@ Definition render_rec (F : fmt) (r : record) (pad : nat) : bytes :=
 Definition render_item (F : fmt) (i : item) : bytes :=
   match i with
   | IRaw s => s
-  | IHeader ks => join (B ",") ks ++ nl
+  | IBlank => nl
+  | IHeader ks => join (match F with FTsv => tab | _ => B "," end) ks ++ nl
   | IRec r pad => render_rec F r pad
   | IOpen => B "[" ++ nl
   | ISep => B "," ++ nl
@@ -290,3 +303,63 @@ Fixpoint chain (vs : list verb) (recs : list record) : list (list record) * list
   end.
 
 Definition run_chain (vs : list verb) (cut : nat) (recs : list record) := chain vs (delivered vs cut recs).
+
+(* ---------------------------------------------------------------- recency order (specification of "least recently used")
+   distinct targets of a history, most recently used first *)
+Definition recency (ts : list target) : list target := fold_left (fun acc t => t :: rm t acc) ts [].
+
+(* ---------------------------------------------------------------- REPAIRED variant (keep_writer_on_evict).
+   What a repair of finding lru-evict-reopen-repeats-header has to do, as a model: eviction flushes and closes the
+   file but keeps the handler's record writer (no end-of-stream text is written); a later use re-opens the file in
+   append mode and RESUMES that writer; Close() also finishes the targets that are still evicted.
+   Not tied to the implementation (today's code is the variant above); theorem C20_one_document_repaired_manager. *)
+Record mgrR := MgrR {
+  r_open : list (target * wstate);
+  r_susp : list (target * wstate);      (* suspended writers of evicted targets *)
+  r_fs : fstore;
+  r_err : bool
+}.
+
+Definition evict_lastR (m : mgrR) : mgrR :=
+  match split_last (r_open m) with
+  | Some (rest, x) => MgrR rest (x :: r_susp m) (r_fs m) (r_err m)
+  | None => m
+  end.
+
+Definition make_roomR (md : mode) (c : nat) (t : target) (m : mgrR) : mgrR :=
+  match lookup t (r_open m) with
+  | Some _ => m
+  | None => if is_pipe md then m else if Nat.leb c (List.length (r_open m)) then evict_lastR m else m
+  end.
+
+Definition acquireR (md : mode) (c : nat) (t : target) (m : mgrR)
+  : wstate * list (target * wstate) * list (target * wstate) * fstore :=
+  let m1 := make_roomR md c t m in
+  match lookup t (r_open m1) with
+  | Some ws => (ws, drop t (r_open m1), r_susp m1, r_fs m1)
+  | None =>
+      match lookup t (r_susp m1) with
+      | Some ws => (ws, r_open m1, drop t (r_susp m1), r_fs m1)                 (* re-open in append mode, resume the writer *)
+      | None => (WFresh, r_open m1, r_susp m1, if is_append md then r_fs m1 else upd t [] (r_fs m1))
+      end
+  end.
+
+Definition stepR (md : mode) (c : nat) (F : fmt) (m : mgrR) (o : op) : mgrR :=
+  if r_err m then m else
+  let '(t, e) := o in
+  let '(ws, rest, susp, fs) := acquireR md c t m in
+  match e with
+  | ERec r =>
+      match w_rec F ws r with
+      | Some (its, ws') => MgrR ((t, ws') :: rest) susp (upd t (fs t ++ its) fs) false
+      | None => MgrR ((t, ws) :: rest) susp fs true
+      end
+  | EStr s => MgrR ((t, ws) :: rest) susp (upd t (fs t ++ [IRaw s]) fs) false
+  end.
+
+Definition runR (md : mode) (c : nat) (F : fmt) (ops : list op) (fs0 : fstore) : mgrR :=
+  fold_left (stepR md c F) ops (MgrR [] [] fs0 false).
+
+Definition finalR (md : mode) (c : nat) (F : fmt) (ops : list op) (fs0 : fstore) : fstore :=
+  let m := runR md c F ops fs0 in
+  close_all F (Mgr (r_open m ++ r_susp m) [] (r_fs m) (r_err m)).
